@@ -49,7 +49,7 @@ Section Und.
                (match assoc k fs with
                 | None => if sl && leafless w then [] else [K k] :: map (cons (K k)) (all_keys w)
                 | Some (DArg _) => []
-                | Some (DGroup fs') | Some (DData _ fs') => map (cons (K k)) (und fs' w)
+                | Some (DGroup fs') | Some (DData _ fs') | Some (DOpt fs') => map (cons (K k)) (und fs' w)
                 | Some (DList fs') =>
                     match w with
                     | CList items =>
@@ -183,6 +183,11 @@ Fixpoint nest_missing (fs : args) (v : cv) {struct v} : list (list seg) :=
          | (k, w) :: t =>
              (match assoc k fs with
               | Some (DGroup fs') | Some (DData _ fs') => map (cons (K k)) (nest_missing fs' w)
+              | Some (DOpt fs') =>
+                  match w with
+                  | CDict _ => map (cons (K k)) (flat_missing fs' w ++ nest_missing fs' w)
+                  | _ => []
+                  end
               | Some (DList fs') =>
                   match w with
                   | CList items =>
